@@ -82,7 +82,9 @@ def deductive(rep: Report, prop: str, funcs: list[str], contracts_mod: str, incl
                         w = _rp.api_witness(prop, q)
                     except Exception:  # noqa: BLE001
                         w = None
-                    if w and (lab in (w.get("what") or "")):
+                    # for an auxiliary obligation (a loop invariant) any clause of the same function's contract firing at a
+                    # real call confirms that the function breaks its contract; the refuted invariant is the explanation
+                    if w and (lab in (w.get("what") or "") or ob.kind.startswith("INV")):
                         info["api_witness"] = w
                         info["api_witness_tried"] = True
                         info["replayed"] = True
